@@ -291,7 +291,16 @@ fn next_bytes<'s>(
 ) -> Option<&'s [u8]> {
     let offset = bytes.iter().copied().position(|b| {
         if *state == State::Utf8 {
-            true
+            // A control byte that cuts a multi-byte character short is consumed by the decoder (it
+            // becomes part of the replacement character); it must not reach the output
+            let mut probe = utf8parser.clone();
+            if probe.add(b) == Utf8Status::Invalid && is_dropped_control(b) {
+                *utf8parser = probe;
+                *state = State::Ground;
+                false
+            } else {
+                true
+            }
         } else {
             let (next_state, action) = state_change(*state, b);
             if next_state != State::Anywhere {
@@ -305,7 +314,14 @@ fn next_bytes<'s>(
 
     let offset = bytes.iter().copied().position(|b| {
         if *state == State::Utf8 {
-            if utf8parser.add(b) {
+            let mut probe = utf8parser.clone();
+            let status = probe.add(b);
+            if status == Utf8Status::Invalid && is_dropped_control(b) {
+                // end the printable run in front of it; the skipping pass above consumes it
+                return true;
+            }
+            *utf8parser = probe;
+            if status != Utf8Status::Pending {
                 *state = State::Ground;
             }
             false
@@ -318,7 +334,7 @@ fn next_bytes<'s>(
                 *state = next_state;
             }
             if *state == State::Utf8 {
-                utf8parser.add(b);
+                let _ = utf8parser.add(b);
             }
             false
         }
@@ -332,29 +348,41 @@ fn next_bytes<'s>(
     }
 }
 
+#[inline]
+fn is_dropped_control(byte: u8) -> bool {
+    byte.is_ascii_control() && !byte.is_ascii_whitespace()
+}
+
+#[derive(Copy, Clone, Debug, PartialEq, Eq)]
+enum Utf8Status {
+    Pending,
+    Char,
+    Invalid,
+}
+
 #[derive(Default, Clone, Debug, PartialEq, Eq)]
 pub(crate) struct Utf8Parser {
     utf8_parser: utf8parse::Parser,
 }
 
 impl Utf8Parser {
-    fn add(&mut self, byte: u8) -> bool {
-        let mut b = false;
+    fn add(&mut self, byte: u8) -> Utf8Status {
+        let mut b = Utf8Status::Pending;
         let mut receiver = VtUtf8Receiver(&mut b);
         self.utf8_parser.advance(&mut receiver, byte);
         b
     }
 }
 
-struct VtUtf8Receiver<'a>(&'a mut bool);
+struct VtUtf8Receiver<'a>(&'a mut Utf8Status);
 
 impl utf8parse::Receiver for VtUtf8Receiver<'_> {
     fn codepoint(&mut self, _: char) {
-        *self.0 = true;
+        *self.0 = Utf8Status::Char;
     }
 
     fn invalid_sequence(&mut self) {
-        *self.0 = true;
+        *self.0 = Utf8Status::Invalid;
     }
 }
 
